@@ -26,6 +26,32 @@ def outcomeOfClass (cls : String) (names : List String) : ParseOutcome :=
   | "emptybody" => .models []
   | _ => .err
 
+/-! ### several endpoints: a discovery round (`DiscoverAll`) as a sequence of per-endpoint results
+
+The workers of a round finish in whatever order the scheduler and the backends give; a result that a cancelled round
+never produced is simply absent from the list.  The catalogue is an association list endpoint ↦ listing. -/
+
+abbrev Cat := List (Nat × List String)
+
+def Cat.get (c : Cat) (e : Nat) : List String :=
+  match c.find? (·.1 == e) with
+  | some p => p.2
+  | none => []
+
+def Cat.set : Cat → Nat → List String → Cat
+  | [], e, v => [(e, v)]
+  | p :: ps, e, v => if p.1 == e then (e, v) :: ps else p :: Cat.set ps e v
+
+/-- one worker's result arrives -/
+def Cat.step (c : Cat) (ev : Nat × ParseOutcome) : Cat :=
+  c.set ev.1 (discover (c.get ev.1) ev.2).1
+
+def runAll (evs : List (Nat × ParseOutcome)) (c : Cat := []) : Cat := evs.foldl Cat.step c
+
+/-- the results that concern endpoint `e`, in arrival order -/
+def eventsFor (e : Nat) (evs : List (Nat × ParseOutcome)) : List ParseOutcome :=
+  (evs.filter (·.1 == e)).map (·.2)
+
 /-! ### metric clamps -/
 
 def minInt32 : Int := -2147483648
